@@ -1,13 +1,18 @@
 from common import *
 
 META = dict(
-    explanation="Leaf helpers only: vset/vmove (cursor stays on an existing result, --cycle and layout direction), selectItem/deselectItem/toggleItem "
-                "(multi-select rules under every operation sequence up to the bound), delChar. The action dispatcher (doAction closure) is outside.",
+    explanation="The action dispatcher of Terminal.Loop (the doAction closure and its toggle helper, lifted verbatim from the current source) is driven through "
+                "sequences of editing actions against a readline-style reference editor (text, cursor, kill buffer as revealed by yank; characters symbolic for the "
+                "character-wise actions, a 4-symbol alphabet incl. a two-byte letter for the word-wise ones, whose boundaries Go's regexp decides natively) and through "
+                "sequences of selection / navigation actions against the multi-select and cursor rules (current results a sub-list of the loaded items, limit, --cycle, layout). "
+                "Plus the leaf helpers: vset/vmove, selectItem/deselectItem/toggleItem under operation sequences, delChar, UpdateList's selection handling.",
     functions=["fzf.(*Terminal).vset", "fzf.(*Terminal).vmove", "fzf.(*Terminal).currentItem", "fzf.(*Terminal).selectItem", "fzf.(*Terminal).deselectItem",
-               "fzf.(*Terminal).toggleItem", "fzf.(*Terminal).delChar", "fzf.(*Terminal).UpdateList (selection handling)", "util.Constrain"],
-    outside=["the editing / navigation / select-all logic inside the doAction closure (about 1000 lines, ~40 captured variables, calls into the renderer)",
-             "window heights, paging, --track"],
-    models=["time.Now stub returning strictly increasing instants"],
+               "fzf.(*Terminal).toggleItem", "fzf.(*Terminal).delChar", "Terminal.Loop: doAction closure (lifted; 41 of its action cases are exercised)", "Terminal.Loop: toggle closure (lifted)",
+               "fzf.(*Terminal).rubout", "fzf.findLastMatch", "fzf.findFirstMatch", "fzf.(*Terminal).constrain (single-line mode)", "fzf.(*Terminal).maxItems", "fzf.(*Terminal).UpdateList (selection handling)", "util.Constrain"],
+    outside=["the key loop around doAction (event decoding, doActions chaining, truncateQuery, change detection, the search request): plain code in the body of Loop, not a function the encoder can enter",
+             "actions that run commands, change layout or preview, history, jump, mouse; transform-* actions", "multi-line items, --wrap, --gap, scroll-off in constrain", "--track",
+             "regular expressions on symbolic strings (word-wise actions run on concrete alphabets)"],
+    models=["time.Now stub returning strictly increasing instants", "tui.Window stub providing Height only", "regexp.Compile / FindStringIndex / FindAllStringIndex executed natively by Go's regexp on concrete strings"],
     assumptions=[],
 )
 
@@ -23,4 +28,16 @@ def suites(tier):
     cfg = dict(nmax=3 if q else 7)
     jobs.append(dict(id=jid("del", cfg), func="zzH_C09_del", cfg=cfg))
     jobs.append(dict(id="update", func="zzH_C09_update", cfg={}))
+    # the action dispatcher itself (doAction, lifted from Terminal.Loop)
+    cfg = dict(words=0, nmax=2 if q else 3, steps=3 if q else 4)
+    jobs.append(dict(id=jid("edit", cfg), func="zzH_C09_edit", cfg=cfg))
+    cfg = dict(words=1, nmax=2 if q else 3, steps=2 if q else 3)
+    jobs.append(dict(id=jid("edit", cfg), func="zzH_C09_edit", cfg=cfg))
+    for cfg in product(cycle=[0, 1], reverse=[0, 1]):
+        diag = cfg["cycle"] == cfg["reverse"]
+        if q:
+            cfg.update(items=3, multimax=2, height=4, steps=2 if diag else 1)
+        else:
+            cfg.update(items=3 if diag else 4, multimax=2 if diag else 3, height=4, steps=3 if diag else 2)
+        jobs.append(dict(id=jid("acts", cfg), func="zzH_C09_acts", cfg=cfg))
     return [src_suite("src", jobs)]
